@@ -362,9 +362,16 @@ def decode_case(case):
         facade.__getattr__ = lambda name: getattr(sys.modules[MOD], name)      # PEP 562 lazy export
         sys.modules[FACADE_MODULE] = facade
     tmp = tempfile.mkdtemp(prefix='c18-')
+    cwd0 = os.getcwd()
     try:
         f1 = os.path.join(tmp, 'desc.json')
         f0 = os.path.join(tmp, 'other.json')
+        if case.get('relative'):
+            # the descriptions are named relative to the working directory (the script sits next to a models/ folder)
+            os.makedirs(os.path.join(tmp, 'models', 'deep'))
+            os.chdir(tmp)
+            f1, f0 = os.path.join('models', 'desc.json'), os.path.join('models', 'deep', 'other.json')
+        cwd1 = os.getcwd()
         with open(f1, 'w') as f:
             d1 = build_desc(case)
             if case.get('key_order') == 'sorted':
@@ -400,6 +407,10 @@ def decode_case(case):
                 main.fx_hook = fx_hook_v2
             sys.modules.pop(LATE_MODULE, None)      # a just-in-time module is provided anew by every decode's hook
             m = dec.decode(path)
+            if os.getcwd() != cwd1:
+                raise Violation('decoding a description changed the working directory of the process', expected='unchanged',
+                                observed='the description\'s directory' if os.getcwd() == os.path.dirname(os.path.abspath(
+                                    os.path.join(cwd1, path))) else 'another directory')
             log = [list(e) for e in LOG]
             mids = [e[2] for e in log if e[0] == 'model']
             if len(mids) != 1:
@@ -434,6 +445,7 @@ def decode_case(case):
                             observed=ran)
         return json.dumps(logs[0])
     finally:
+        os.chdir(cwd0)
         me.fx_hook = _FX_HOOK_V1
         shutil.rmtree(tmp, ignore_errors=True)
 
@@ -554,6 +566,8 @@ def cases(tier):
             out.append(dict(base, odd_ids='env'))
             out.append(dict(base, odd_ids='comma'))
             out.append(dict(base, late_model=True))
+            out.append(dict(base, relative=True))
+            out.append(dict(base, relative=True, rewrite=True))
             out.append(dict(base, late_model=True, hooks={'pre_model': True}))
     # a large description: 60 systems, a group of 1100 agents between an empty group and a small one
     big_prios = [(i * 7) % 5 - 2 for i in range(60)]
